@@ -370,19 +370,27 @@ func c11(r *engine.Report, p *engine.Program) {
 	}
 
 	// R7 duplicate node: Shutdown only under SuspectedDuplicate == s.epoch
-	shut := callsTo(hru, "(*netceptor.Netceptor).Shutdown")
 	sd := p.Field("netceptor", "routingUpdate", "SuspectedDuplicate")
 	ep := p.Field("netceptor", "Netceptor", "epoch")
-	eqE, _ := valEqEdges(hru, fieldLoadIs(sd), fieldLoadIs(ep))
-	selfE, _ := valEqEdges(hru, fieldLoadIs(p.Field("netceptor", "routingUpdate", "NodeID")), fieldLoadIs(nodeID))
-	okShut := len(shut) == 1 && len(eqE) > 0
-	if okShut {
-		for _, es := range [][]engine.Edge{eqE, selfE} {
-			cut := engine.EdgeSet{}.Add(es...)
-			if engine.Reach(hru, nil, cut, nil, func(in ssa.Instruction) bool { return in == ssa.Instruction(shut[0]) }) != nil {
-				okShut = false
+	shutFn := p.Func("(*netceptor.Netceptor).Shutdown")
+	var shut []ssa.CallInstruction
+	if shutFn != nil {
+		if obj, _ := shutFn.Object().(*types.Func); obj != nil {
+			for _, cs := range p.CallSitesOf(obj) {
+				if inPkg(cs.Parent(), "netceptor") && !engine.IsMock(cs.Parent()) {
+					shut = append(shut, cs)
+				}
 			}
 		}
+	}
+	okShut := len(shut) == 1
+	if okShut {
+		findEq := func(f *ssa.Function) []engine.Edge { e, _ := valEqEdges(f, fieldLoadIs(sd), fieldLoadIs(ep)); return e }
+		findSelf := func(f *ssa.Function) []engine.Edge {
+			e, _ := valEqEdges(f, fieldLoadIs(p.Field("netceptor", "routingUpdate", "NodeID")), fieldLoadIs(nodeID))
+			return e
+		}
+		okShut = mustPassEdges(p, shut[0].Parent(), shut[0], findEq, 0) && mustPassEdges(p, shut[0].Parent(), shut[0], findSelf, 0)
 	}
 	r.Check("R7-duplicate", "handleRoutingUpdate: self-shutdown condition", hru.Pos(), okShut,
 		"Shutdown is reachable only for an update naming our own ID whose SuspectedDuplicate equals our own epoch", "the node can shut itself down without a duplicate notice naming its own epoch")
